@@ -1,6 +1,6 @@
 (* C14 driver.  One case per line:
      <P> <ppn_attach> <ppn_sim> <noncontig> <flavour> <dtype> <count> <contributions: P*count hex integers, comma separated or ->
-   prints one line:  for every rank  `g=<ir>/<is>/<er>/<es>|none w=<0|1> ag=<ints> pre=<ints> calls=<m>;<ag>;<pre>;<cp>;<f>`
+   prints one line:  for every rank  `g=<ir>/<is>/<er>/<es>|none w=<0|1> ag=<ints> pre=<ints> calls=<m>;<ag>;<pre>;<cp>;<f> life=<live after attach>/<after detach>`
    joined by " | ".  Node map of MPI_Comm_split_type as in tools/simmpi: rank / ppn, or rank mod ceil (P/ppn). *)
 let pl_of_string s = if s = "-" || s = "" then [] else List.map z_of_hex (String.split_on_char ',' s)
 let string_of_pl l = if l = [] then "-" else String.concat "," (List.map hex_of_z l)
@@ -31,8 +31,16 @@ let () = iter_lines (fun line ->
                | Some nc -> let (((a, b), c), e) = grid_position nc nr in
                  Printf.sprintf "%d/%d/%d/%d" (int_of_nat a) (int_of_nat b) (int_of_nat c) (int_of_nat e)) in
       let (((ag, pre), w), ((((cm, ca), cp), cc), cf)) = rank_report (nat_of_int d) np comms (nat_of_int cnt) f contrib nr in
-      Printf.sprintf "g=%s w=%d ag=%s pre=%s calls=%s;%s;%s;%s;%s" g (if w then 1 else 0) (string_of_pl ag) (string_of_pl pre)
-        (nats cm) (nats ca) (nats cp) (nats cc) (nats cf) in
+      (* life cycle of the attached communicators on this rank: alive after attach / after detach *)
+      let equal = (comms nr <> None) in
+      let s0 = { live = []; next_id = O; attr = None } in
+      let life =
+        if pa < 0 then "0/0" else
+        let s1 = l_attach (pa > 0) equal s0 in
+        let s2 = l_detach s1 in
+        Printf.sprintf "%d/%d" (List.length s1.live) (List.length s2.live) in
+      Printf.sprintf "g=%s w=%d ag=%s pre=%s calls=%s;%s;%s;%s;%s life=%s" g (if w then 1 else 0) (string_of_pl ag) (string_of_pl pre)
+        (nats cm) (nats ca) (nats cp) (nats cc) (nats cf) life in
     print_endline (String.concat " | " (List.init p one))
   | [] -> ()
   | _ -> print_endline "BAD_PARAMS")
